@@ -204,13 +204,16 @@ func c08Prop(st *CaseStats, fam int) func(t *rapid.T) {
 			filtered   int
 			desc       string
 			it         segment.DictionaryIterator
+			dict       segment.Dictionary
 			got        []entry
 			done       bool
+			closed     bool
 		}
 		// one Dictionary object per field serving all queries, or a fresh one per query
 		sharedDict := rapid.Bool().Draw(t, "sharedDict")
 		// all iterators opened first and consumed in a drawn interleaving, or one after the other
 		interleave := nq >= 2 && rapid.Bool().Draw(t, "interleave")
+		closeEarly := rapid.Bool().Draw(t, "closeEarly")
 		dicts := map[string]segment.Dictionary{}
 		var qs []*dictQuery
 		fail := func(q *dictQuery, err error) {
@@ -231,6 +234,7 @@ func c08Prop(st *CaseStats, fam int) func(t *rapid.T) {
 				} else {
 					q.it = d.Iterator(nil, q.start, q.end)
 				}
+				q.dict = d
 				return nil
 			})
 			if err != nil {
@@ -248,6 +252,15 @@ func c08Prop(st *CaseStats, fam int) func(t *rapid.T) {
 					// nil stays nil
 					if e, err := q.it.Next(); e != nil || err != nil {
 						return fmt.Errorf("Next after the end returned %v, %v", e, err)
+					}
+					if !sharedDict && closeEarly {
+						// this query's own Dictionary is finished with: closing it must not disturb the
+						// other dictionaries (of the same field) that are still being read
+						q.closed = true
+						if err := q.it.Close(); err != nil {
+							return err
+						}
+						return q.dict.Close()
 					}
 					return nil
 				}
@@ -331,8 +344,10 @@ func c08Prop(st *CaseStats, fam int) func(t *rapid.T) {
 			}
 		}
 		for _, q := range qs {
-			if err := safely("close", q.it.Close); err != nil {
-				fail(q, err)
+			if !q.closed {
+				if err := safely("close", q.it.Close); err != nil {
+					fail(q, err)
+				}
 			}
 			got, want, field := q.got, q.want, q.field
 			if len(got) != len(want) {
@@ -360,6 +375,8 @@ func c08Prop(st *CaseStats, fam int) func(t *rapid.T) {
 		}
 		if sharedDict {
 			labels = append(labels, "shared-dictionary")
+		} else if closeEarly && interleave {
+			labels = append(labels, "dictionary-closed-while-others-in-use")
 		}
 		// Contains / PostingsList agree with the live set
 		for k := 0; k < 4; k++ {
